@@ -4,14 +4,18 @@ package main
 // (no hook in /repo; a renamed or removed function is a link error, i.e. a broken `corr:build`).
 
 import (
+	"bytes"
 	"reflect"
 	"sync/atomic"
 	"time"
 	"unsafe"
 
 	"go.uber.org/multierr"
+	"go.uber.org/zap"
 	"go.uber.org/zap/buffer"
 	"go.uber.org/zap/zapcore"
+	"go.uber.org/zap/zapio"
+	"go.uber.org/zap/zaptest/observer"
 )
 
 //go:linkname zapJSONSep go.uber.org/zap/zapcore.(*jsonEncoder).addElementSeparator
@@ -328,6 +332,83 @@ func init() {
 				ws := fldOf(flds, "ws")
 				err := zapMultiSync(trSinks(ws, &writes))
 				return []TV{trErrIds(err)}, []trFld{{"ws", ws}}
+			}},
+	)
+}
+
+// ---------------------------------------------------------------- TransZio
+
+//go:linkname zapZioWriteLine go.uber.org/zap/zapio.(*Writer).writeLine
+func zapZioWriteLine(w *zapio.Writer, line []byte) []byte
+
+//go:linkname zapZioFlush go.uber.org/zap/zapio.(*Writer).flush
+func zapZioFlush(w *zapio.Writer, allowEmpty bool)
+
+// newZio builds a real *zapio.Writer in the given state; the returned func reads the fields back.
+func newZio(flds []trFld) (*zapio.Writer, func() []trFld) {
+	en := *fldOf(flds, "#en").B
+	lvl := zapcore.Level(fldOf(flds, "level").int64())
+	core, logs := observer.New(zap.LevelEnablerFunc(func(l zapcore.Level) bool { return en }))
+	w := &zapio.Writer{Log: zap.New(core), Level: lvl}
+	buff := unexported(reflect.ValueOf(w), "buff").Addr().Interface().(*bytes.Buffer)
+	buff.Write(fldOf(flds, "buff").bytes())
+	out0 := *fldOf(flds, "out").L
+	return w, func() []trFld {
+		out := append([]TV{}, out0...)
+		for _, e := range logs.All() {
+			out = append(out, tvBytes([]byte(e.Message)))
+		}
+		return []trFld{{"buff", tvBytes(append([]byte{}, buff.Bytes()...))}, {"level", fldOf(flds, "level")},
+			{"out", tvList(out)}, {"#en", fldOf(flds, "#en")}}
+	}
+}
+
+func genZioFlds(r *Rand) []trFld {
+	buff := []byte{}
+	if r.Bool() {
+		for _, c := range r.Bytes(4) {
+			if c != '\n' {
+				buff = append(buff, c)
+			}
+		}
+	}
+	return []trFld{{"buff", tvBytes(buff)}, {"level", tvInt(int64(r.Intn(4)) - 1)}, {"out", tvList(nil)}, {"#en", tvBool(r.Chance(4, 5))}}
+}
+
+func init() {
+	trFns = append(trFns,
+		trFn{table: "TransZio", name: "Write",
+			gen: func(r *Rand) ([]TV, []trFld) { return []TV{tvBytes(r.Bytes(10))}, genZioFlds(r) },
+			run: func(args []TV, flds []trFld) ([]TV, []trFld) {
+				w, read := newZio(flds)
+				n, err := w.Write(args[0].bytes())
+				if err != nil {
+					panic("zapio.Writer.Write returned an error")
+				}
+				return []TV{tvInt(int64(n)), tvList(nil)}, read()
+			}},
+		trFn{table: "TransZio", name: "Sync",
+			gen: func(r *Rand) ([]TV, []trFld) { return nil, genZioFlds(r) },
+			run: func(_ []TV, flds []trFld) ([]TV, []trFld) {
+				w, read := newZio(flds)
+				if err := w.Sync(); err != nil {
+					panic("zapio.Writer.Sync returned an error")
+				}
+				return []TV{tvList(nil)}, read()
+			}},
+		trFn{table: "TransZio", name: "writeLine",
+			gen: func(r *Rand) ([]TV, []trFld) { return []TV{tvBytes(r.Bytes(8))}, genZioFlds(r) },
+			run: func(args []TV, flds []trFld) ([]TV, []trFld) {
+				w, read := newZio(flds)
+				rem := zapZioWriteLine(w, args[0].bytes())
+				return []TV{tvBytes(rem)}, read()
+			}},
+		trFn{table: "TransZio", name: "flush",
+			gen: func(r *Rand) ([]TV, []trFld) { return []TV{tvBool(r.Bool())}, genZioFlds(r) },
+			run: func(args []TV, flds []trFld) ([]TV, []trFld) {
+				w, read := newZio(flds)
+				zapZioFlush(w, *args[0].B)
+				return nil, read()
 			}},
 	)
 }
